@@ -104,7 +104,8 @@ class GenericCallAdapter(Adapter):
             kw_arg_node = {kw.arg: kw.value for kw in node.keywords if kw.arg}.get
 
             def pos_arg_node(pos):
-                return node.args[pos]
+                # not every argument has to be part of the source: defaultdict(list)
+                return node.args[pos] if pos < len(node.args) else None
 
         else:
 
